@@ -25,7 +25,7 @@ TRUSTED_BASE = [
 	'Lean 4.33 kernel; axioms of the property theorems: subset of {propext, Classical.choice, Quot.sound}',
 	'byte identity of the two 350 KB modules is an executed comparison, not a theorem (string literals of that size do not elaborate)',
 	'yaml stand-in in /verif/shims (catparser.__main__ imports yaml; --quiet runs never dump YAML)',
-	'emission plan model SymbolVerif/Model/Codec/Emission.lean covers class order, TYPE_HINTS and the text of the serialize/_serialize/size/deserialize/_deserialize bodies; constructors, accessors, sort, __str__ and the enum/alias classes are not modelled as text',
+	'emission plan model SymbolVerif/Model/Codec/Emission.lean is a port of the whole text-producing code of sdk/python/generator over the independent IR (moduleLines); its equality with the generator output is an executed comparison per schema (both shipped sets here, random schemas in C15), not a theorem about the Python generator',
 ]
 ASSUMPTIONS = ['the generator is run with /venv/bin/python; other interpreter versions are out of scope']
 
@@ -109,6 +109,27 @@ def compare_bodies(ctx, driver, label, schema, text):
 			differing = next((pair for pair in zip(model, actual or []) if pair[0] != pair[1]), (model[len(actual or []):][:1], (actual or [])[len(model):][:1]))
 			ctx.fail('corr', f'{label}.{name}.{method}: emitted body differs from the emission model', {
 				'network': label, 'type': name, 'method': method, 'model_line': differing[0], 'module_line': differing[1]})
+	compare_module(ctx, driver, label, schema, text)
+
+
+def compare_module(ctx, driver, label, schema, text):
+	"""The whole generated file against the lines the Lean emission model derives from the IR (first differing line reported)."""
+	answer = driver.ask(f'module {cats.to_json(schema)}')
+	ctx.case(('module', label), {'label': label, 'lines': text.count('\n')} if label in NETWORKS else None)
+	ctx.count('whole-module-texts')
+	try:
+		model = bytes.fromhex(answer).decode('utf8') + '\n'
+	except ValueError:
+		ctx.fail('corr', f'{label}: emission model gives no module text: {answer[:200]}', {'network': label})
+		return
+	if model != text:
+		model_lines, module_lines = model.split('\n'), text.split('\n')
+		index = next((i for i, pair in enumerate(zip(model_lines, module_lines)) if pair[0] != pair[1]), min(len(model_lines), len(module_lines)))
+		enclosing = next((line for line in reversed(module_lines[:index + 1]) if line.startswith('class ')), '')
+		ctx.fail('corr', f'{label}: generated module differs from the text of the emission model at line {index + 1} ({enclosing.strip()})', {
+			'network': label, 'line': index + 1, 'class': enclosing.strip(),
+			'model_line': model_lines[index] if index < len(model_lines) else None,
+			'module_line': module_lines[index] if index < len(module_lines) else None})
 
 
 def run(ctx):
@@ -201,9 +222,9 @@ MANIFEST = {
 		'directories, path styles and stale output directories (a finite closed instance, not a theorem). The theorems cover what a model can carry: '
 		'the emission plan (one class per declaration in declaration order, then one factory per abstract struct; TYPE_HINTS = the value-carrying own '
 		'members in layout order) is a function of the declarations alone, and the only hash-ordered iteration feeding the generator is order-independent '
-		'(C18). The plan, the hint tables and the text of the serialize/_serialize/size/deserialize/_deserialize bodies computed by the Lean model from the independent IR are compared with the module (ast skeleton and body lines).'),
+		'(C18). The plan, the hint tables, the serialize/_serialize/size/deserialize/_deserialize bodies and the complete module text (moduleLines: a port of every text-producing function of the generator) computed by the Lean model from the independent IR are compared with the module.'),
 	'level_note': (
-		'partial: the serialize/_serialize/size/deserialize/_deserialize bodies are modelled as text, the rest of the module is not; byte identity is an executed comparison; yaml stand-in needed to import catparser.__main__; '
+		'partial: the whole module text is modelled (moduleLines) and compared with the generator output, but byte identity is an executed comparison; yaml stand-in needed to import catparser.__main__; '
 		'Lean kernel + standard axioms for the plan theorems.'),
 	'technique': 'executed differential of the real generator over configurations + Lean theorems about the emission plan',
 }
